@@ -320,7 +320,7 @@ def obligations(F, rep, rule="OBLIGATION"):
         need(rep, rule, "expression|Call|param~arg", facts, (r"bound:params\[\*\].*|bound:.*\[\*\].*", r"exprof:args\[\*\].*"),
              "every argument is unified with its parameter type", line_of(arm), allow_cond=True)
         # arity comparison -> Err(WrongArity); non-function callee -> Err
-        inner = [m for m in nodes(arm["body"], "Match") if "ty::Type" in m.get("scrut_ty", "")]
+        inner = [m for m in nodes(arm["body"], "Match") if "sylt_compiler::ty::Type" in m.get("scrut_ty", "")]
         arity = False
         for i in nodes(arm["body"], "If"):
             c = pp(i["c"])
@@ -373,10 +373,10 @@ def obligations(F, rep, rule="OBLIGATION"):
     rep.analysed(fsu)
     rows = None
     for m in nodes(fn_body(fsu), "Match"):
-        if m.get("scrut_ty", "").count("ty::Type") == 2:
+        if m.get("scrut_ty", "").count("sylt_compiler::ty::Type") == 2:
             rows = m
     # the inner match (second one) holds the concrete rows
-    inner = [m for m in nodes(fn_body(fsu), "Match") if m.get("scrut_ty", "").count("ty::Type") == 2]
+    inner = [m for m in nodes(fn_body(fsu), "Match") if m.get("scrut_ty", "").count("sylt_compiler::ty::Type") == 2]
     ok_default = False
     same_rows = set()
     tuple_len = arity = False
